@@ -475,7 +475,7 @@ fn main() {
             Child::Done(v) => {
                 if let Some(dist) = v["distribution"].as_object() {
                     for (k, n) in dist {
-                        if k.contains("spill") || k.contains("over_") || k == "braid_calls" || k == "cmds" || k == "merge_cmds" {
+                        if k.contains("spill") || k.contains("reload") || k.contains("over_") || k == "braid_calls" || k == "cmds" || k == "merge_cmds" {
                             rec.count_n(k, n.as_u64().unwrap_or(0));
                         }
                     }
